@@ -296,7 +296,7 @@ func genC01(c *ctx) {
 	p.Odd = c.chance(0.6)
 	p.HalfTyped = []float64{0, 0.03, 0.1}[c.n(3)]
 	p.Builtins = c.chance(0.4)
-	if c.chance(0.15) {
+	if c.chance(0.25) {
 		// a workspace with HCL JSON files among the others
 		p.JSONTwin, p.JSONFiles, p.HalfTyped, p.Odd, p.Layout = true, true, 0, false, false
 	}
